@@ -402,6 +402,9 @@ def finish(ctx, level="proof", trusted=None, assumptions=None, extra=None):
             f.write("# property=%s seed=%d tier=%s\n# no failing input was found; the following no longer check:\n" % (prop, ctx.seed, ctx.tier))
             for b in ctx.broken:
                 f.write("BROKEN\t%s\n" % b)
+            for d in ctx.disagreements[:10]:
+                if isinstance(d, dict) and d.get("replay"):
+                    f.write("# disagreeing input (model %s / library %s)\n%s\n" % (str(d.get("model"))[:80], str(d.get("library"))[:80], d["replay"]))
         lines.append("VIOLATION property=%s replay=%s no-failing-input-found" % (prop, rp))
         nviol += 1
     for k in known:
